@@ -35,6 +35,9 @@ def main():
             jobs.append((pid, p))
     for m in sorted(glob.glob(os.path.join(ROOT, "seeded", "*", "meta.json"))):
         meta = json.load(open(m))
+        if meta.get("retired"):
+            print(f"retired        {os.path.relpath(os.path.dirname(m), ROOT)}")
+            continue
         for pid in meta.get("checks", [meta["property"]]):
             if not pids or pid in pids:
                 jobs.append((pid, os.path.join(os.path.dirname(m), "patch.diff")))
